@@ -203,7 +203,9 @@ RecMenu ==
              : d \in { <<"ex", A>>, <<"e3", A>>, <<"q", A>>, <<"q", C>> } }
          \cup { [k |-> "entity", id |-> <<NameQN("ex", A, X)>>, formals |-> <<>>, extras |-> <<>>] }
     [] Scenario \in {"c12", "c12b"} ->
-         { [k |-> "entity", id |-> <<NamePL("ex", Y)>>, formals |-> <<>>, extras |-> <<>>],
+         { [k |-> "entity", id |-> <<NamePL("ex", <<"z">>)>>, formals |-> <<>>,     \* a literal with an application datatype
+            extras |-> << <<NameQN("ex", A, <<"attr">>), [t |-> "lit", v |-> "s1", dt |-> QN("ex", A, <<"dtype">>)]>> >>],
+           [k |-> "entity", id |-> <<NamePL("ex", Y)>>, formals |-> <<>>, extras |-> <<>>],
            [k |-> "entity", id |-> <<NamePL("ex", X)>>, formals |-> <<>>,
             extras |-> << <<NameQN("ex", A, <<"attr">>), [t |-> "int", v |-> "0"]>> >>] }
 
